@@ -973,7 +973,8 @@ def r8_5(rep):
     rep.check(bool(tails), "join:result", "the folded value is the answer (Yes when there is no member)", cj.loc(cj.root))
     # the opaque early return is not trait dependent apart from the union test (R8.6 relies on it)
     yes = [(b, n) for b in bodies for n in returns_of(b, "Yes") if qq.has_atom(qq.guard_atoms(b, n), "IsOpaque>::is_opaque", True)]
-    dep = [a for b, n in yes for a, p, _ in qq.guard_atoms(b, n) if "derive_trait" in a and "can_derive_union" not in a and "not_by_name" not in a]
+    dep = [a for b, n in yes for a, p, _ in qq.guard_atoms(b, n) if "derive_trait" in a and "can_derive_union" not in a and "not_by_name" not in a
+           and "can_derive_compound_with_destructor" not in a]
     rep.check(bool(yes) and not dep, "opaque:all-traits", "an opaque item answers Yes for every trait (blob of integers)%s" %
               ("; but depends on %s" % dep[0][:60] if dep else ""), yes[0][0].loc(yes[0][1]) if yes else ct.loc(ct.root))
 
@@ -2228,3 +2229,43 @@ def r8_16(rep):
                   "maintained by %s" % ", ".join(sorted(short(w.path) for w in ws)) if ws is not None else
                   "some writer of `%s` / `%s` can leave `%s` on with `%s` off: `#[derive]` then lists a trait without its supertrait "
                   "(does not compile), or the setter silently clears a switch the user turned on" % (A, B, A, B), "bindgen/options/mod.rs")
+
+
+@RULES.rule("R8.17", "no compound type is granted a trait before its destructor has been asked about", floor=2)
+def r8_17(rep):
+    """A type with a C++ destructor must not be Copy (`can_derive_compound_with_destructor` is false for Copy only).  In
+    `CannotDerive::constrain_type` a compound can leave through the opaque short cut or through the `Comp` arm; both must test
+    `lookup_has_destructor` before they can answer Yes.  (`--opaque-type Foo` on `struct Foo { ~Foo(); int x; };` derived Copy
+    before the fix, while `struct Bar { Foo f; }` did not.)"""
+    prog = rep.prog
+    b = rep.need(prog.fn("ir::analysis::derive::CannotDerive::<'ctx>::constrain_type") or
+                 next((x for p, x in prog.bodies.items() if p.endswith("::constrain_type") and "derive" in p), None), "CannotDerive::constrain_type")
+
+    def asked(node):
+        for pol, kind, g in b.guards(node, nested=True):
+            if kind == "cond" and "lookup_has_destructor" in b.canon(g, 10) and "can_derive_compound_with_destructor" in b.canon(g, 10):
+                return True
+        return False
+    # (a) the opaque short cut
+    opq = [n for n in b.walk() if n["k"] == "Ret" and "CanDerive::Yes" in b.canon(n.get("e") or {}, 3)
+           and any(kind == "cond" and pol and "is_opaque" in b.canon(g, 6) for pol, kind, g in b.guards(n))]
+    rep.need(opq, "the `return CanDerive::Yes` of the opaque short cut")
+    for r in opq:
+        rep.check(asked(r), "destructor-asked:opaque", "the opaque short cut answers Yes only after the destructor test" if asked(r) else
+                  "an opaque type is granted the trait without asking `lookup_has_destructor`: an opaque class with a destructor derives Copy",
+                  b.loc(r))
+    # (b) the Comp arm: everything after the destructor test
+    comp = None
+    for m in b.walk():
+        if m["k"] == "Match":
+            for i, a in enumerate(m["arms"]):
+                if any(v.endswith("TypeKind::Comp") for v in pat_variants(a["pat"])):
+                    comp = a
+    rep.need(comp, "the TypeKind::Comp arm")
+    test = [n for n in b.walk(comp["body"]) if n["k"] == "If" and "lookup_has_destructor" in b.canon(n["cond"], 10)]
+    rep.check(bool(test) and b.diverges(test[0]["then"]) if test else False, "destructor-asked:comp",
+              "the Comp arm returns No for a type with a destructor when the trait cannot be derived then", b.loc(comp["body"]))
+    if test:
+        early = [n for n in b.walk(comp["body"]) if n["k"] == "Ret" and "CanDerive::No" not in b.canon(n.get("e") or {}, 3)
+                 and n["s"][1] < test[0]["s"][1]]
+        rep.check(not early, "destructor-asked:comp-first", "nothing but `No` is returned before the destructor test in the Comp arm", b.loc(comp["body"]))
